@@ -7,7 +7,7 @@ Three layers (DESIGN.md §5 C18, D11, T10):
                 model: must be a model run, end final, deliver every path exactly once
   3. binaries : the real yara / yarac built from the working tree on generated trees and rule files:
                 -p N directory / scan-list runs vs the union of per-file single-threaded invocations (multiset of
-                output blocks, every line intact), compiled (-C) vs source rules with externals at either stage,
+                output blocks, every line intact), compiled (-C) vs source rules with integer / string / boolean / float externals at either stage,
                 exit status non-zero iff an error was reported."""
 import os, re, json, shutil, stat, subprocess, random, hashlib, time
 from collections import Counter
@@ -176,12 +176,15 @@ def gen_rules(r, tag, console=False, reuse=False, externals=False):
         lines.append('rule r%s_xd { condition: ext_i == 10 or ext_i == 100 or ext_i == 7 }' % tag)     # decimal reading of 010 / 0100 / 007
         lines.append('rule r%s_xw { condition: ext_i > 4294967296 or ext_i < -4294967296 }' % tag)     # values beyond 32 bits keep all their bits
         lines.append('rule r%s_xs { condition: ext_s contains "ab" }' % tag)
+        lines.append('rule r%s_xfh { condition: ext_f > 1.25 }' % tag)
+        lines.append('rule r%s_xfl { condition: ext_f < 0.75 and ext_f >= 0.0 }' % tag)
+        lines.append('rule r%s_xfn { condition: ext_f < 0.0 }' % tag)
         lines.append('rule r%s_xb { strings: $a = "alpha" condition: ext_b and $a }' % tag)
         lines.append('rule r%s_xf { condition: filesize > ext_i * 10 }' % tag)
         lines.append('rule r%s_f2at { strings: $a = "alpha" $b = "bravo" condition: $a at ext_i or $b at ext_i }' % tag)
         lines.append('rule r%s_f2in { strings: $a = "alpha" condition: $a in (0..ext_i) }' % tag)
         lines.append('rule r%s_f2of { strings: $a = "alpha" $b = "bravo" $c = "charlie" condition: ext_i of them }' % tag)
-        names += ["r%s_%s" % (tag, x) for x in ("xi", "xd", "xs", "xb", "xf", "f2at", "f2in", "f2of")]
+        names += ["r%s_%s" % (tag, x) for x in ("xi", "xd", "xs", "xfh", "xfl", "xfn", "xb", "xf", "f2at", "f2in", "f2of")]
         f2 += ["r%s_%s" % (tag, x) for x in ("f2at", "f2in", "f2of")]
     text = "".join('import "%s"\n' % m for m in sorted(imports)) + "\n".join(lines) + "\n"
     return text, dict(names=names, tags=sorted(alltags), f2=f2, f6=f6)
@@ -361,6 +364,9 @@ class Cli:
             for rep in range(sc["reps"]):
                 runs.append(p)
         argvs = [[y] + opts + (["-p", str(p)] if p else []) + rule_args + target for p in runs]
+        if sc.get("nofile"):
+            # the directory / list run under a lowered descriptor limit (the per-file reference runs do not need it)
+            argvs = [["sh", "-c", 'ulimit -n %d || exit 97; exec "$@"' % sc["nofile"], "sh"] + a for a in argvs]
         results = list(self.pool.map(run_cmd, argvs))
         self.stats["dir_runs"] += len(results)
         for o in opts:
@@ -615,9 +621,48 @@ class Cli:
 _TREES = {}
 
 
+FIBER_RULES = ('rule re_hit { strings: $a = /token=(ab|a[b-d]|abc?)+x?/ condition: $a }\n'
+               'rule re_two { strings: $a = /id=(x|xy|x[y-z])+;/ $b = "tail" condition: $a and $b }\n')
+FD_RULES = ('rule marker { strings: $m = "MARKER" condition: $m }\n'
+            'rule deep { condition: uint8(0) == 0x42 and (' + 'filesize + (' * 40 + 'filesize' + ')' * 40 + ') > 0 }\n')
+FD_LIMIT = 96        # descriptor limit of the fd scenario; the tree has more failing files than that
+
+
+def build_special_tree(kind):
+    """Trees for per-scanner / per-process resources that are only visible when ONE invocation handles many files:
+    'fibers' - several hundred small files that all make a non-fast regexp with alternatives match (a scanner's fiber pool is
+               reused for every file a worker thread picks up);
+    'fdleak' - more files whose scan FAILS (evaluation stack too small for rule `deep` with -k 16) than the lowered descriptor
+               limit allows, next to ordinary files in the same and in other directories."""
+    root = os.path.join(core.OUT, PID, WORK, "trees", "t_" + kind)
+    if os.path.exists(root):
+        shutil.rmtree(root)
+    os.makedirs(root)
+    r = random.Random("special/" + kind)
+    if kind == "fibers":
+        os.makedirs(root + "/sub")
+        for i in range(440):
+            d = root if i % 5 else root + "/sub"
+            body = "hdr token=abcabx tail token=ababab more token=abcx %d id=xyxzx; id=xxy;\n" % i
+            if i % 41 == 0:
+                body = "nothing here %d\n" % i
+            open("%s/f%03d.txt" % (d, i), "w").write(body * r.choice([1, 1, 2]))
+    else:
+        for d in ("a_bad", "b_good", "b_good/deeper", "c_mixed"):
+            os.makedirs(root + "/" + d)
+        for i in range(3 * FD_LIMIT):
+            open("%s/a_bad/b%03d.dat" % (root, i), "w").write("Bad file %d MARKER\n" % i)
+        for i in range(30):
+            open("%s/b_good/g%02d.txt" % (root, i), "w").write("good file %d MARKER\n" % i)
+            open("%s/b_good/deeper/h%02d.txt" % (root, i), "w").write("deeper good file %d MARKER MARKER\n" % i)
+        for i in range(60):
+            open("%s/c_mixed/m%02d.txt" % (root, i), "w").write(("Bad" if i % 2 else "ok") + " mixed %d MARKER\n" % i)
+    return root
+
+
 def build_tree_cached(seed, quick):
     if seed not in _TREES:
-        _TREES[seed] = build_tree(seed, quick)
+        _TREES[seed] = build_special_tree(seed) if isinstance(seed, str) else build_tree(seed, quick)
     return _TREES[seed]
 
 
@@ -690,6 +735,17 @@ def gen_scenarios(tier):
                     "opts": ["-f"] + r.choice([["-s"], ["-L"], ["-s", "-L"], ["-X", "-s"]]) + ["-r"],
                     "p": [1, 2, 32, r.randint(3, 16)] if quick else [1, 2, 3, 4, 8, 16, 32, 0], "reps": 2,
                     "mode": "list" if ti % 2 == 1 else "dir", "list_nl": True})
+        if ti == 0:
+            # resources that live as long as a worker's scanner / the process: only visible when one invocation handles many files
+            sid += 1
+            scs.append({"kind": "threads", "id": "%d" % sid, "tree": "fibers", "rules": [{"ns": None, "text": FIBER_RULES}], "opts": ["-s", "-r"],
+                        "p": [1, 2, 8, 32] if quick else [1, 2, 3, 8, 32, 0], "reps": 1, "mode": "dir"})
+            sid += 1
+            scs.append({"kind": "threads", "id": "%d" % sid, "tree": "fdleak", "rules": [{"ns": None, "text": FD_RULES}], "opts": ["-k", "16", "-r"],
+                        "p": [1, 4, 32], "reps": 1, "mode": "dir", "nofile": FD_LIMIT})
+            sid += 1
+            scs.append({"kind": "threads", "id": "%d" % sid, "tree": "fdleak", "rules": [{"ns": None, "text": FD_RULES}], "opts": ["-k", "16", "-s", "-r"],
+                        "p": [1, 8], "reps": 1, "mode": "list", "list_nl": True, "nofile": FD_LIMIT})
         # -l : partial check
         sid += 1
         text, info = gen_rules(r, "%dl" % sid)
@@ -716,14 +772,16 @@ def gen_scenarios(tier):
             vi = r.choice([0, 2, 4, 6, 101, "010", "0100", "007", "-0", 5000000000, -5000000000, 4294967303])
             if ci == 1:
                 vi = r.choice(["010", "0100"])      # decimal reading of a leading-zero value at the scan stage: in every tree, not by luck
-            cext = [("ext_i", str(vi)), ("ext_s", r.choice(["abc", "xyz", "cab"])), ("ext_b", r.choice(["true", "false"]))]
+            fv = r.choice(["2.5", "0.5", "-3.5", "1.0"])
+            cext = [("ext_i", str(vi)), ("ext_s", r.choice(["abc", "xyz", "cab"])), ("ext_b", r.choice(["true", "false"])), ("ext_f", fv)]
             mode = ci % 3
             if mode == 0:
                 sext = []                                                           # externals only at the compile stage
             elif mode == 1:
                 sext = list(cext)                                                   # same values at both stages
             else:
-                sext = [("ext_i", str(r.choice([x for x in [0, 2, 4, 6, 101, "010", "0100", 5000000000, -5000000000, 4294967303, 4294967303, 9223372036854775807] if x != vi]))), ("ext_s", r.choice(["abd", "zab"])), ("ext_b", r.choice(["true", "false"]))]
+                sext = [("ext_i", str(r.choice([x for x in [0, 2, 4, 6, 101, "010", "0100", 5000000000, -5000000000, 4294967303, 4294967303, 9223372036854775807] if x != vi]))), ("ext_s", r.choice(["abd", "zab"])), ("ext_b", r.choice(["true", "false"])),
+                        ("ext_f", r.choice([x for x in ["2.5", "0.5", "-3.5", "0.0"] if x != fv]))]     # float external (re)defined at the scan stage
             files = walk_like_scan_dir(build_tree_cached(t, quick), False)
             scs.append({"kind": "compiled", "id": "%d" % sid, "tree": t, "rules": [{"ns": None, "text": text}], "opts": r.choice([["-s", "-r"], ["-r"], ["-g", "-m", "-r"], ["-c", "-r"]]),
                         "p": [r.choice([1, 4, 32])], "compile_ext": cext, "scan_ext": sext, "f2": info["f2"], "single_files": r.sample(files, 3)})
